@@ -460,6 +460,14 @@ func c19Gen(rt *rapid.T) c19Input {
 				op.Kind = rapid.SampledFrom([]string{"append", "controller", "p"}).Draw(rt, "akind")
 			}
 			op.Item = rapid.SliceOfN(rapid.Byte(), 32, 32).Draw(rt, "item")
+			switch rapid.IntRange(0, 7).Draw(rt, "itemkind") {
+			case 0: // the all-zero hash is a REAL item (M_B([]) = H^0 is appended for every block without outputs)
+				op.Item = make([]byte, 32)
+			case 1: // all ones
+				for j := range op.Item {
+					op.Item[j] = 0xFF
+				}
+			}
 		case k < 88:
 			op.Kind = "restore"
 			op.Cap = rapid.IntRange(0, 4).Draw(rt, "cap")
